@@ -245,8 +245,26 @@ fn mutate(rng: &mut Rng, spec: &AppSpec, qid: &str) -> (Value, String, Option<bo
             ("not-an-object".into(), Some(true))
         }
         22 => {
-            q["state_features"] = any_json(rng);
-            ("state-features-any-type".into(), None)
+            if rng.chance(0.5) {
+                q["state_features"] = any_json(rng);
+                ("state-features-any-type".into(), None)
+            } else {
+                // well-formed feature descriptions under names the models may or may not declare, of the declared or of
+                // another feature type
+                let mut m = serde_json::Map::new();
+                for _ in 0..rng.urange(1, 3) {
+                    let name = *rng.pick(&["distance", "time", "energy_liquid", "energy_electric", "battery_state", "trip_distance", "no_such_feature", ""]);
+                    let f = match rng.below(4) {
+                        0 => json!({"distance_unit": *rng.pick(&["miles", "meters", "kilometers"]), "initial": rng.frange(0.0, 5.0)}),
+                        1 => json!({"time_unit": *rng.pick(&["hours", "minutes", "seconds"]), "initial": rng.frange(0.0, 5.0)}),
+                        2 => json!({"energy_unit": *rng.pick(&["kilowatt_hours", "gallons_gasoline"]), "initial": rng.frange(0.0, 5.0)}),
+                        _ => json!({"name": "soc", "unit": "percent", "format": {"type": "floating_point", "initial": 50.0}}),
+                    };
+                    m.insert(name.to_string(), f);
+                }
+                q["state_features"] = Value::Object(m);
+                ("state-features-well-formed-any-name".into(), None)
+            }
         }
         23 => {
             q["query_weight_estimate"] = any_json(rng);
@@ -734,7 +752,7 @@ pub fn run(tier: Tier, seed: u64) -> MonOut {
     let _ = std::fs::remove_dir_all(&work);
     MonOut {
         report: rep,
-        rule: "worker subprocesses (address space limited to 6 GiB, stderr discarded) build applications over plugin configurations {none, inject, grid_search, vertex_rtree, edge_rtree, load_balancer haversine|numeric|categorical and combinations}, algorithms {Dijkstra, A*, single-via, Yen}, traversal {distance, speed, energy ice|bev|phev with/without prediction cache}, outputs {summary, traversal in any format, uuid}; per application three batches: empty, one item, 2..50 items; 65 % of the items are structural mutations of a valid query from 25 classes (drop / retype / out-of-range origin and destination, empty / array / scalar / empty-axis / no-axis / nested / six-axes grid sections, origin = destination, unknown model name, zero weights, absurd k / weight_factor / starting charge / cost overrides / state_features, non-object queries of every JSON type). every query runs under a logical step budget enforced on the application's worker threads through hook events. non-trivial = a batch with at least one mutated query; distinct by (configuration, mutation list)".into(),
+        rule: "worker subprocesses (address space limited to 6 GiB, stderr discarded) build applications over plugin configurations {none, inject, grid_search, vertex_rtree, edge_rtree, load_balancer haversine|numeric|categorical and combinations}, algorithms {Dijkstra, A*, single-via, Yen}, traversal {distance, speed, energy ice|bev|phev with/without prediction cache}, outputs {summary, traversal in any format, uuid}; per application three batches: empty, one item, 2..50 items; 65 % of the items are structural mutations of a valid query from 25 classes (drop / retype / out-of-range origin and destination, empty / array / scalar / empty-axis / no-axis / nested / six-axes grid sections, origin = destination, unknown model name, zero weights, absurd k / weight_factor / starting charge / cost overrides / state_features (any JSON, or well-formed feature descriptions under declared and undeclared names), non-object queries of every JSON type). every query runs under a logical step budget enforced on the application's worker threads through hook events. non-trivial = a batch with at least one mutated query; distinct by (configuration, mutation list)".into(),
         assumptions: vec![
             "a batch that kills the worker (abort, SEGV, allocation failure under the cap) is a violation with the batch as witness; a worker that makes no progress for 5 minutes is killed and reported as inconclusive, never as a violation".into(),
             "'must be an error' is only asserted for mutations that are ill-formed under every reading (missing / ill-typed / out-of-range origin, zero weights, unknown vehicle, charge outside 0..100, non-object queries, and degenerate grid sections when the grid plugin is configured)".into(),
